@@ -319,3 +319,56 @@ Section ConfigWF.
     repeat split; try assumption. apply mem_str_In. exact Hm.
   Qed.
 End ConfigWF.
+
+Section ConfigApplied.
+  Variable va : string -> string -> bool.
+  Variable dv : string -> string -> string -> option string.
+  Variable av : string -> bool.
+  Notation execute := (execute va dv av).
+
+  (* every supplied section is applied: the stored section is the validated form of the supplied one, and the routing
+     fields (channel, staker, collector, validators, periods, denoms, minimum, oracle, fee, treasury) are the supplied values *)
+  Theorem update_config_applies s e i n p f m bp s' r :
+    execute s e i (UpdateConfig n p f m bp) = Ok (s', r) ->
+    (forall u, n = Some u -> validate_native va u = Some (native (cfg s'))
+                             /\ nc_staker (native (cfg s')) = un_staker u /\ nc_collector (native (cfg s')) = un_collector u
+                             /\ nc_validators (native (cfg s')) = un_validators u /\ nc_unbonding (native (cfg s')) = un_unbonding u)
+    /\ (forall u, p = Some u -> validate_protocol va u = Some (protocol (cfg s'))
+                                /\ pc_channel (protocol (cfg s')) = up_channel u /\ pc_min (protocol (cfg s')) = up_min u
+                                /\ pc_oracle (protocol (cfg s')) = up_oracle u)
+    /\ (forall u, f = Some u -> fee_rate (fees (cfg s')) = uf_rate u /\ fee_treasury (fees (cfg s')) = uf_treasury u)
+    /\ (forall l, m = Some l -> monitors (cfg s') = l)
+    /\ (forall x, bp = Some x -> batch_period (cfg s') = x).
+  Proof.
+    intros H. apply update_config_inv in H. destruct H as (n' & p' & f' & m' & _ & Hn & Hp & Hf & Hm & -> & _). cbn.
+    split; [| split; [| split; [| split]]].
+    - intros u ->. split; [exact Hn|]. unfold validate_native in Hn.
+      destruct (validate_address_prefix (un_prefix u)); [|discriminate]. destruct (validate_address_prefix (un_valprefix u)); [|discriminate].
+      destruct (validate_denom (un_denom u)); [|discriminate]. destruct (_ && _ && _); [|discriminate]. inversion Hn; subst. cbn. repeat split.
+    - intros u ->. split; [exact Hp|]. unfold validate_protocol in Hp. destruct (negb _); [discriminate|].
+      destruct (validate_address_prefix (up_prefix u)); [|discriminate]. destruct (validate_ibc_denom (up_denom u)); [|discriminate].
+      destruct (match up_oracle u with Some o => _ | None => true end); [|discriminate]. inversion Hp; subst. cbn. repeat split.
+    - intros u ->. unfold validate_fee in Hf. destruct (match uf_treasury u with Some t => _ | None => true end); [|discriminate]. inversion Hf; subst. cbn. split; reflexivity.
+    - intros l ->. destruct Hm as [_ ->]. reflexivity.
+    - intros x ->. reflexivity.
+  Qed.
+
+  (* C09 across a re-configuration: after an accepted UpdateConfig that supplies both sections, the only account whose
+     ReceiveRewards / ReceiveUnstakedTokens can succeed is the one derived from the SUPPLIED channel and the SUPPLIED
+     collector / staker *)
+  Theorem reconfigured_hook_sender s e i un up f m bp s1 r1 e2 i2 s2 r2 :
+    execute s e i (UpdateConfig (Some un) (Some up) f m bp) = Ok (s1, r1) ->
+    (execute s1 e2 i2 ReceiveRewards = Ok (s2, r2) ->
+       dv (up_channel up) (un_collector un) (pc_prefix (protocol (cfg s1))) = Some (sender i2))
+    /\ (forall id, execute s1 e2 i2 (ReceiveUnstakedTokens id) = Ok (s2, r2) ->
+       dv (up_channel up) (un_staker un) (pc_prefix (protocol (cfg s1))) = Some (sender i2)).
+  Proof.
+    intros H. destruct (update_config_applies _ _ _ _ _ _ _ _ _ _ H) as (Hn & Hp & _).
+    destruct (Hn un eq_refl) as (_ & Hst & Hco & _). destruct (Hp up eq_refl) as (_ & Hch & _).
+    assert (G : forall nat, hook_sender_ok dv s1 nat i2 = true -> dv (pc_channel (protocol (cfg s1))) nat (pc_prefix (protocol (cfg s1))) = Some (sender i2)).
+    { intros nat Hh. unfold hook_sender_ok in Hh. destruct (dv _ nat _) as [a|]; [|discriminate]. apply String.eqb_eq in Hh. rewrite Hh. reflexivity. }
+    split.
+    - intros H2. apply receive_rewards_inv in H2. destruct H2 as (c & fee & om & _ & _ & Hh & _). rewrite <- Hch, <- Hco. apply G. exact Hh.
+    - intros id H2. apply receive_unstaked_inv in H2. destruct H2 as (c & b & t & _ & Hh & _). rewrite <- Hch, <- Hst. apply G. exact Hh.
+  Qed.
+End ConfigApplied.
